@@ -1374,12 +1374,22 @@ func (area) Run(c *core.Ctx) error {
 			runHookWitness(c, hookFixed[j])
 			continue
 		}
+		if j := i - len(fixed) - len(hookFixed); j >= 0 && j < 2 {
+			// round 12: the pool's queue, saturated (12 tasks behind the blocker) and not (5)
+			runPoolQueue(c, rng, []int{12, 5}[j])
+			continue
+		}
 		if i%10 == 9 {
 			runLeaf(c, rng)
 			continue
 		}
 		if i%20 == 13 {
 			runPlanExec(c, peGen(rng))
+			continue
+		}
+		if i%50 == 4 {
+			// round 12: several tasks in the real pool's queue, saturation, cancellation between Submit and dequeue
+			runPoolQueue(c, rng, 0)
 			continue
 		}
 		if i%50 == 7 {
